@@ -190,7 +190,12 @@ fn run_case(seed: u64, idx: u64, all_rates: bool) -> CaseOut {
         match req {
             Req::Tick => bars[b].tick(),
             Req::Msg => {
-                model[b].1 = format!("m{opi}");
+                // (some messages span several rows, with an empty one in between: more rows, same throttling)
+                model[b].1 = match rng.below(8) {
+                    0 => format!("m{opi}\n\nz"),
+                    1 => format!("m{opi}\nz"),
+                    _ => format!("m{opi}"),
+                };
                 bars[b].set_message(model[b].1.clone());
             }
             Req::Inc => {
@@ -221,7 +226,7 @@ fn run_case(seed: u64, idx: u64, all_rates: bool) -> CaseOut {
         // recently drawn rendering, which is C02's business)
         if flushed == 1 && !(multi && req == Req::Println) {
             let rows = spy.state().screen.all_rows();
-            let want = format!("B{b} {}/1000 {}", model[b].0, model[b].1);
+            let want = format!("B{b} {}/1000 {}", model[b].0, model[b].1.split('\n').next().unwrap_or(""));
             if !rows.iter().any(|r| r.trim_end() == want.trim_end()) {
                 verdict = viol("stale-frame", feats(""), format!("frame painted by {req:?} on B{b} does not show the latest state {want:?}: {rows:?}"), witness(String::new()), replay.clone());
                 break 'ops;
